@@ -893,9 +893,14 @@ func (val Value) Index(key Value) Value {
 
 		keyStr := key.v.(string)
 
+		elem, exists := val.v.(map[string]interface{})[keyStr]
+		if !exists {
+			panic("element key does not exist in map")
+		}
+
 		return Value{
 			ty: elty,
-			v:  val.v.(map[string]interface{})[keyStr],
+			v:  elem,
 		}
 	case val.Type().IsTupleType():
 		if key.Type() == DynamicPseudoType {
